@@ -1,8 +1,8 @@
 (* C09 - no-panic theorems for the BLS entry points that need stated preconditions
    (bls.go, bls_multisig.go, bls_thresholdsign.go, bls12381_utils.go).
    Every hypothesis is about a value the LIBRARY built (named by the oracle entry the
-   skeleton reads it from), never about a caller-supplied argument, except where the
-   comment says "FINDING". *)
+   skeleton reads it from), never about a caller-supplied argument other than
+   "a length is non-negative". *)
 From Coq Require Import ZArith List String Bool Lia.
 From V Require Import Model.Risk Generated.RiskSkel Proofs.RiskProofs Proofs.RiskBase.
 Import ListNotations.
@@ -72,19 +72,12 @@ Theorem np_bls_generatePrivateKey : forall e,
   safe skel_blsBLS12381Algo_generatePrivateKey e.
 Proof. safe_auto. Qed.
 
-(* FINDING: exported, takes &out[0] and &A[0] unguarded: the preconditions are about the
-   caller's arguments.  E2PolynomialImages(nil, nil) panics. *)
+(* exported; panicked on nil / empty slices before the fix f338146 (found by this skeleton);
+   the hypotheses only say that lengths are non-negative *)
 Theorem np_E2PolynomialImages : forall e,
-  0 < e "out" -> 0 < e "A" ->
+  0 <= e "out" -> 0 <= e "A" ->
   safe skel_E2PolynomialImages e.
 Proof. safe_auto. Qed.
-
-Theorem np_E2PolynomialImages_refuted :
-  exists e, ~ safe skel_E2PolynomialImages e.
-Proof.
-  exists (fun _ => 0). unfold safe, risk_fuel. vm_compute. intro H.
-  inversion H as [|o l Ho _]; subst. apply (Ho _ eq_refl).
-Qed.
 
 (* ---- threshold signatures ---- *)
 Theorem np_thr_VerifyShare : forall e,
